@@ -85,10 +85,10 @@ def _method_based(rc_keys, fc_keys):
             self.state = state
             super(type(self), self).__init__()
 
-        rc_ns = {f"evaluate_{k}": rc_method(k, not I.is_sync_key("rc", k)) for k in sig[0]}
+        rc_ns = {f"evaluate_{k}": rc_method(k, k not in I.sync_subset(sig[0])) for k in sig[0]}
         rc_ns.update(edifact_format=I.FMT, edifact_format_version=I.FMTV, __init__=init,
                      _get_default_context=lambda self: EvaluationContext(scope=None))
-        fc_ns = {f"evaluate_{k}": fc_method(k, not I.is_sync_key("fc", k)) for k in sig[1]}
+        fc_ns = {f"evaluate_{k}": fc_method(k, k not in I.sync_subset(sig[1])) for k in sig[1]}
         fc_ns.update(edifact_format=I.FMT, edifact_format_version=I.FMTV, __init__=init)
         _method_classes[sig] = (type("UserRcEvaluator", (RcEvaluator,), rc_ns), type("UserFcEvaluator", (FcEvaluator,), fc_ns))
     return _method_classes[sig]
